@@ -91,6 +91,12 @@ func TestVerifC02(t *testing.T) {
 	for i := 0; i < hk.N(6, 30); i++ {
 		keys = append(keys, randScalar(rng))
 	}
+	// keys whose d+1 (the value the signer inverts) has a carry-critical internal representation
+	for _, v := range montgomeryPatternScalars(rng, 40)[:10] {
+		if d := new(big.Int).Sub(v, bi(1)); ref.ValidPriv(d) {
+			keys = append(keys, d)
+		}
+	}
 	var cases []*c02case
 	chunks := []int{0, 0, 1, 7, 31, 32, 33}
 
@@ -144,6 +150,19 @@ func TestVerifC02(t *testing.T) {
 			stream = append(stream, rng.Bytes(32*4)...)
 			cases = append(cases, &c02case{d: d, priv: ref.B32(d), e: rc.e, stream: stream, chunk: chunks[rng.Intn(len(chunks))], plan: "random", label: rc.label})
 		}
+	}
+	// digests SOLVED so that (r + k) mod n, s or r has a carry-critical INTERNAL (Montgomery) representation:
+	// the signer's zero tests and final reductions work on that representation
+	for i, tg := range montgomeryPatternScalars(rng, hk.N(90, 400)) {
+		kind := []string{"r+k", "s", "r"}[i%3]
+		d := keys[(i*3)%len(keys)]
+		k := randScalar(rng)
+		e, ok := solveDigest(d, k, kind, tg)
+		if !ok {
+			continue
+		}
+		stream := append(append(ref.B32(k), ref.B32(randScalar(rng))...), rng.Bytes(32*4)...)
+		cases = append(cases, &c02case{d: d, priv: ref.B32(d), e: e, stream: stream, chunk: chunks[rng.Intn(len(chunks))], plan: "random", label: "montgomery-pattern-" + kind})
 	}
 	// (b) the rule matrix: 0..3 range rejects, then optionally one digest-dependent
 	// rule (r=0 | r+k=n | s=0), then valid candidates
